@@ -86,6 +86,26 @@ func GetVarSize(value any) int {
 				valueSize = valueLength * 4
 			case uint64, int64:
 				valueSize = valueLength * 8
+			default:
+				// Elements that are encodable by value or through a pointer
+				// receiver (the way WriteArray accepts them).
+				cw := counterWriter{}
+				w := NewBinWriterFromIO(&cw)
+				for i := range valueLength {
+					elem := v.Index(i)
+					el, ok := reflect.TypeAssert[Encodable](elem)
+					if !ok && elem.CanAddr() {
+						el, ok = reflect.TypeAssert[Encodable](elem.Addr())
+					}
+					if !ok {
+						panic(fmt.Sprintf("unable to calculate GetVarSize, %s", reflect.TypeOf(value)))
+					}
+					el.EncodeBinary(w)
+				}
+				if w.Err != nil {
+					panic(fmt.Sprintf("error serializing %s: %s", reflect.TypeOf(value), w.Err.Error()))
+				}
+				valueSize = cw.counter
 			}
 		}
 
